@@ -3660,3 +3660,122 @@ func sharedErrorChain(c *an.Ctx, rule string, allowed map[string]string, prefixe
 	}
 	return examined
 }
+
+// sharedCodecGuards is the rule for the early returns of message converters:
+// a converter of the given packages may return early (a default, an empty
+// object, nil) only because its input is absent (nil), switched off (a field
+// named Enabled) or invalid (an error is being returned).  An early return
+// that depends on the *contents* ("no subnets", "nothing to block") replaces
+// present settings by defaults.  allowed lists confirmed other guards
+// ("<fn>" -> reason).  Returns the number of early returns examined.
+func sharedCodecGuards(c *an.Ctx, rule string, allowed map[string]string, prefixes ...string) (examined int) {
+	errType := types.Universe.Lookup("error").Type()
+	for _, fn := range c.AllFns {
+		if fn.Blocks == nil || c.IsTestFile(fn.Pos()) || fn.Parent() != nil || strings.Contains(c.Pos(fn.Pos()), ".pb.go:") {
+			continue
+		}
+		k := an.FnKey(fn)
+		in := false
+		for _, p := range prefixes {
+			if strings.HasPrefix(k, p) {
+				in = true
+			}
+		}
+		if !in || !isConverterName(fn.Name()) || len(fn.Params) == 0 || allowed[k] != "" {
+			continue
+		}
+		// converters of one message (a pointer to a struct); list converters return empty for empty
+		if pt, isPtr := fn.Params[0].Type().Underlying().(*types.Pointer); !isPtr {
+			continue
+		} else if _, isStruct := pt.Elem().Underlying().(*types.Struct); !isStruct {
+			continue
+		}
+		rets := an.Returns(fn)
+		if len(rets) < 2 {
+			continue
+		}
+		var last token.Pos
+		for _, r := range rets {
+			if r.Pos() > last {
+				last = r.Pos()
+			}
+		}
+		res := fn.Signature.Results()
+		sort.Slice(rets, func(i, j int) bool { return rets[i].Pos() < rets[j].Pos() })
+		ord := 0
+		for _, r := range rets {
+			if r.Pos() == last || r.Block() == fn.Recover {
+				continue
+			}
+			// returning an error is not an early "default"
+			if n := len(r.Results); n >= 1 && types.Identical(res.At(n-1).Type(), errType) && !an.IsNilConst(r.Results[n-1]) {
+				continue
+			}
+			// returns inside loops (per-element conversion) are out of scope
+			inLoop := false
+			for _, l := range naturalLoops(fn) {
+				if l.blocks[r.Block()] {
+					inLoop = true
+				}
+			}
+			if inLoop {
+				continue
+			}
+			examined++
+			c.Analysed(k)
+			bad := ""
+			for _, p := range r.Block().Preds {
+				ifi, ok := p.Instrs[len(p.Instrs)-1].(*ssa.If)
+				if !ok {
+					continue
+				}
+				cond := ifi.Cond
+				if u, isNot := cond.(*ssa.UnOp); isNot && u.Op == token.NOT {
+					cond = u.X
+				}
+				okGuard := false
+				switch x := cond.(type) {
+				case *ssa.BinOp:
+					// input == nil / input != nil, also for an input's sub-message
+					if (x.Op == token.EQL || x.Op == token.NEQ) && (an.IsNilConst(x.X) || an.IsNilConst(x.Y)) {
+						other := x.X
+						if an.IsNilConst(x.X) {
+							other = x.Y
+						}
+						if ap, isAP := an.AccessPath(other); isAP && strings.HasPrefix(ap, "p") {
+							okGuard = true
+						}
+						if types.Identical(other.Type(), errType) {
+							okGuard = true
+						}
+					}
+				case *ssa.UnOp, *ssa.Field:
+					if ap, isAP := an.AccessPath(cond); isAP && strings.HasPrefix(ap, "p") && strings.HasSuffix(ap, "Enabled") {
+						okGuard = true
+					}
+				case *ssa.Call:
+					// a protobuf getter of a flag: x.GetEnabled()
+					if cal := an.StaticCallee(x); cal != nil && strings.HasSuffix(cal.Name(), "Enabled") {
+						okGuard = true
+					}
+				case *ssa.Extract:
+					// the dispatch of a type switch over a sum type
+					if ta, isTA := x.Tuple.(*ssa.TypeAssert); isTA && ta.CommaOk && x.Index == 1 {
+						okGuard = true
+					}
+				}
+				if !okGuard {
+					bad = ifi.Cond.String()
+					if bo, isBo := ifi.Cond.(*ssa.BinOp); isBo {
+						bad = bo.X.String() + " " + bo.Op.String() + " " + bo.Y.String()
+					}
+				}
+			}
+			ord++
+			c.Check(bad == "", rule, fmt.Sprintf("%s early return #%d only for absent or disabled input", k, ord), r.Pos(),
+				"the early return is guarded by nil / Enabled tests only",
+				"the converter returns early on a condition over the message's contents ("+bad+"): present settings are replaced by the default")
+		}
+	}
+	return examined
+}
